@@ -596,7 +596,88 @@ func (n *normalizer) stmt(s ast.Stmt) {
 		n.emit(x.Tok.String(), ";")
 	case *ast.BranchStmt:
 		n.emit(x.Tok.String(), ";")
-	case *ast.SwitchStmt, *ast.TypeSwitchStmt, *ast.SelectStmt, *ast.GoStmt, *ast.DeferStmt, *ast.SendStmt, *ast.LabeledStmt:
+	case *ast.SwitchStmt:
+		// cases in source order (a tagless switch takes the first case that holds: order is behaviour)
+		n.emit("switch")
+		if x.Init != nil {
+			n.stmt(x.Init)
+		}
+		if x.Tag != nil {
+			n.expr(x.Tag)
+		}
+		n.emit("{")
+		for _, cs := range x.Body.List {
+			cc, ok := cs.(*ast.CaseClause)
+			if !ok {
+				continue
+			}
+			if cc.List == nil {
+				n.emit("default", ":")
+			} else {
+				n.emit("case")
+				for i, e := range cc.List {
+					if i > 0 {
+						n.emit(",")
+					}
+					n.expr(e)
+				}
+				n.emit(":")
+			}
+			for _, st := range cc.Body {
+				n.stmt(st)
+			}
+		}
+		n.emit("}")
+	case *ast.TypeSwitchStmt:
+		n.emit("typeswitch")
+		if x.Init != nil {
+			n.stmt(x.Init)
+		}
+		n.stmt(x.Assign)
+		n.emit("{")
+		for _, cs := range x.Body.List {
+			cc, ok := cs.(*ast.CaseClause)
+			if !ok {
+				continue
+			}
+			if cc.List == nil {
+				n.emit("default", ":")
+			} else {
+				n.emit("case")
+				for i, e := range cc.List {
+					if i > 0 {
+						n.emit(",")
+					}
+					if t := n.info.TypeOf(e); t != nil && n.isType(e) {
+						n.emit("type:" + kindOf(t))
+					} else {
+						n.expr(e)
+					}
+				}
+				n.emit(":")
+			}
+			for _, st := range cc.Body {
+				n.stmt(st)
+			}
+		}
+		n.emit("}")
+	case *ast.DeferStmt:
+		n.emit("defer")
+		n.expr(x.Call)
+		n.emit(";")
+	case *ast.GoStmt:
+		n.emit("go")
+		n.expr(x.Call)
+		n.emit(";")
+	case *ast.SendStmt:
+		n.expr(x.Chan)
+		n.emit("<-")
+		n.expr(x.Value)
+		n.emit(";")
+	case *ast.LabeledStmt:
+		n.emit("label:")
+		n.stmt(x.Stmt)
+	case *ast.SelectStmt:
 		n.emit(fmt.Sprintf("?%T;", s))
 	case *ast.EmptyStmt:
 	default:
